@@ -42,3 +42,11 @@ From GmsmVerif Require Import Agree.WireSpec.
 Lemma gm_prf_is_spec : forall n secret label seed,
   gm_prf n secret label seed = PRF_spec hmac_sm3 n secret label seed.
 Proof. intros. unfold gm_prf. rewrite prf12_sm3_is_P_SM3 by lia. reflexivity. Qed.
+
+Lemma gm_ekm_is_spec : forall n ms cr sr label context,
+  reserved_label label = false -> context_too_long context = false ->
+  gm_ekm n ms cr sr label context = Some (EKM_spec hmac_sm3 n ms cr sr label context).
+Proof.
+  intros n ms cr sr label context Hr Hc. unfold gm_ekm.
+  rewrite (ekm_is_spec hmac_sm3 32) by (try lia; try exact hmac_sm3_out_length; assumption). reflexivity.
+Qed.
